@@ -118,19 +118,17 @@ func getChildren(parent *flds.Field, fields map[string]flds.Field) []error {
 }
 
 func isPrivate(x *ast.Field) bool {
-	var s string
 	if len(x.Names) == 0 {
-		s = fmt.Sprintf("%s", x.Type)
-	} else {
-		s = fmt.Sprintf("%s", x.Names[0])
+		s := fmt.Sprintf("%s", x.Type)
+		return strings.Contains(letters, string(s[0]))
 	}
-	return strings.Contains(letters, string(s[0]))
+	return !ast.IsExported(x.Names[0].Name)
 }
 
 func getFields(n map[string]ast.Node) (map[string]fields.Field, error) {
 	fields := map[string]flds.Field{}
 	for k, n := range n {
-		_, ok := n.(*ast.TypeSpec)
+		ts, ok := n.(*ast.TypeSpec)
 		if !ok {
 			continue
 		}
@@ -139,13 +137,10 @@ func getFields(n map[string]ast.Node) (map[string]fields.Field, error) {
 			Type: k,
 		}
 
-		ast.Inspect(n, func(n ast.Node) bool {
-			if n == nil {
-				return false
-			}
-
-			switch x := n.(type) {
-			case *ast.Field:
+		// only the struct's own fields are columns; the fields of anonymous
+		// structs, func signatures or interfaces used as field types are not.
+		if st, ok := ts.Type.(*ast.StructType); ok && st.Fields != nil {
+			for _, x := range st.Fields.List {
 				if len(x.Names) == 1 && !isPrivate(x) {
 					f, skip := getField(x.Names[0].Name, x, nil)
 					if !skip {
@@ -159,8 +154,7 @@ func getFields(n map[string]ast.Node) (map[string]fields.Field, error) {
 					}
 				}
 			}
-			return true
-		})
+		}
 
 		fields[k] = parent
 	}
